@@ -179,10 +179,14 @@ func diffStrings(ds diff.SpecDifferences) []string {
 // watchdog implements the non-termination guard: a single case that runs longer than limit is
 // reported through onStuck (which must not return normally).
 type watchdog struct {
-	mu    sync.Mutex
-	cur   map[int]wdEntry
-	limit time.Duration
-	stop  chan struct{}
+	mu      sync.Mutex
+	cur     map[int]wdEntry
+	limit   time.Duration
+	stop    chan struct{}
+	journal string          // directory of per-worker "current case" files ("" = none)
+	skip    map[string]bool // cases not to run (confirmed fatal in an earlier round)
+	only    string          // run this case only
+	skipTokens []string     // family features whose every case is skipped (one confirmed fatal feature)
 }
 type wdEntry struct {
 	what  string
@@ -213,10 +217,34 @@ func newWatchdog(limit time.Duration, onStuck func(what string)) *watchdog {
 	}()
 	return w
 }
-func (w *watchdog) enter(id int, what string) {
+// enter records the case a worker starts (also in the worker's journal file when a journal directory is
+// set: a fatal runtime error such as a stack overflow kills the process, and the parent process finds
+// the culprit there). It returns false when the case must not be run (skip list / single-case mode).
+func (w *watchdog) enter(id int, what string) bool {
+	if w.only != "" && what != w.only {
+		return false
+	}
+	if w.skip[what] {
+		return false
+	}
+	for _, t := range w.skipTokens {
+		for _, f := range strings.FieldsFunc(what, func(r rune) bool { return r == ' ' || r == '+' }) {
+			if f == t {
+				return false
+			}
+		}
+	}
+	if w.journal != "" {
+		f, err := os.OpenFile(filepath.Join(w.journal, fmt.Sprintf("w%03d", id)), os.O_CREATE|os.O_WRONLY|os.O_TRUNC, 0o644)
+		if err == nil {
+			_, _ = f.WriteString(what)
+			_ = f.Close()
+		}
+	}
 	w.mu.Lock()
 	w.cur[id] = wdEntry{what, time.Now()}
 	w.mu.Unlock()
+	return true
 }
 func (w *watchdog) leave(id int) { w.mu.Lock(); delete(w.cur, id); w.mu.Unlock() }
 func (w *watchdog) close()       { close(w.stop) }
